@@ -10,9 +10,15 @@
                                                       `NewSet(members…)` (members in insertion order): the table is built
                                                       with the model's `goHash`, the slots are visited in `orderedSlots`
                                                       order, each member is written as its `text` (supplied by the harness)
+    c14.bindorder {"vars":[[hexname, count]…]}         the order in which `batch.Authorize` binds the variables (hex names,
+                                                      `,`-joined), for every order in which the map may yield them
+    c14.firstname {"names":[hex…],"other":[hex…]}      the name the unbound- (unused-) variable error of `batch.Authorize`
+                                                      mentions: the least of `names` that is not in `other` (or `none`),
+                                                      for every order of `names`
 -/
 import CedarGo.Driver.Ops.Core
 import CedarGo.Model.Order
+import CedarGo.Model.BatchOrder
 namespace CedarGo.Driver
 open Lean CedarGo
 
@@ -58,9 +64,25 @@ def opC14SetOrder : Handler := fun _ j => do
   let texts := written.map fun v => match ms.find? (fun m => m.1.beq v) with | some m => m.2 | none => "?"
   .ok (hex ("[" ++ sep.intercalate texts ++ "]"))
 
+def opC14BindOrder : Handler := fun _ j => do
+  let vars ← (← jArr (← field j "vars")).mapM fun kv => do
+    match ← jArr kv with
+    | [k, n] => .ok ((← jHex k), List.replicate (← jNat n) ())
+    | _ => .error "bad variable"
+  if vars.length > c14MaxPerm then throw "too-many-variables"
+  let outs := (perms vars).map fun σ => ",".intercalate ((bindingOrder σ).map fun v => hex v.1)
+  .ok ("|".intercalate (sortDedup outs))
+
+def opC14FirstName : Handler := fun _ j => do
+  let names ← (← jArr (← field j "names")).mapM jHex
+  let other ← (← jArr (← field j "other")).mapM jHex
+  if names.length > c14MaxPerm then throw "too-many-names"
+  let outs := (perms names).map fun σ => match firstUnbound σ other with | some k => hex k | none => "none"
+  .ok ("|".intercalate (sortDedup outs))
+
 def c14Ops : List (String × Handler) :=
   [("c14.reclit", opC14RecLit), ("c14.inmsg", opC14InMsg), ("c14.sortkeys", opC14SortKeys),
    ("c14.containsall", c14Quant containsAllLoop), ("c14.containsany", c14Quant containsAnyLoop),
-   ("c14.setorder", opC14SetOrder)]
+   ("c14.setorder", opC14SetOrder), ("c14.bindorder", opC14BindOrder), ("c14.firstname", opC14FirstName)]
 
 end CedarGo.Driver
